@@ -288,7 +288,7 @@ def check_comp(ctx, case, comp, impl, model, spec, p, W, oracle_only, tag=''):
     if 'raises' in impl:
         ctx.oracle_fail(tag + 'raises', f'{sh}: the real code raised {impl["raises"]}', one(case, comp))
         return None
-    mcols, mrare, mret = model
+    mcols, mrare, mret = model if model is not None else (None, None, None)      # oracle-only runs have no model reply
     scols, srare = spec
     if not oracle_only:
         ctx.traces += 1
@@ -454,7 +454,7 @@ def evaluate(ctx: Ctx, cases, oracle_only=False):
 # end-to-end CLI runs
 
 def cli_rows(rng, n):
-    """4 columns f0,f1,f2,label; values cross the rare threshold (3) in the first quarter and reappear in the last one"""
+    """5 columns f0,f1,f2,f3,label; values cross the rare threshold (3) in the first quarter and reappear in the last one"""
     q = n // 4
     rows = []
     for i in range(n):
@@ -464,12 +464,15 @@ def cli_rows(rng, n):
         else:
             f1 = str(rng.randrange(300))
         f2 = rng.choice(['x', 'y', 'x', ''])
-        rows.append([f0, f1, f2, str(rng.randrange(2))])
+        rows.append([f0, f1, f2, rng.choice(['u', 'v', 'w']), str(rng.randrange(2))])
     for i in rng.sample(range(3 * q, n), 3):
         rows[i][1] = 'hot'                    # retired after batch 1 (size n/4), then <= threshold occurrences
     rows[rng.randrange(3 * q, n)][1] = 'warm'
     for k in range(8):
         rows[rng.randrange(n)][2] = f'rare{k}'
+    # f3: a single missing cell in the whole file – the mean of the per-batch coverages is 99.95..: `int(round(mean, 1))` = 100,
+    # a truncation of the unrounded mean would give 99
+    rows[rng.randrange(n)][3] = ''
     for k, cnt in enumerate([3, 4, 4, 5]):    # exactly at / just above the threshold, spread over the quarters
         for t in range(cnt):
             rows[(t % 4) * q + rng.randrange(q)][2] = f'edge{k}'
@@ -480,7 +483,7 @@ def cli_start(ctx: Ctx):
     n = 2048
     tmp = tempfile.mkdtemp(prefix='verif_c13_')
     rows = cli_rows(ctx.rng, n)
-    names = ['f0', 'f1', 'f2', 'label']
+    names = ['f0', 'f1', 'f2', 'f3', 'label']
     os.makedirs(os.path.join(tmp, 'data'))
     with open(os.path.join(tmp, 'data', 'data.csv'), 'w', encoding='latin1') as fh:
         fh.write(','.join(names) + '\n')
